@@ -17,7 +17,7 @@ SPEC = {
         ("label-genericity(non-emitting search)", 'ne_inner', r'^ne-inner:one-non'),
         ("label-genericity(non-emitting link)", 'ne_end', r'^ne-end:one-emitting')],
     'bounded': [
-        ('transformations', suites.case_C16, 1500, 25000, RULE + '; ' + 'non-trivial = best path has >= 2 states; transformations: pure renaming, reorder, axis swap, scale 2^k for k in {-8,-3,-1,1,3,10,20}, translation by representable offsets (no pruning)', '')],
+        ('transformations', suites.case_C16, 1500, 200000, RULE + '; ' + 'non-trivial = best path has >= 2 states; transformations: pure renaming, reorder, axis swap, scale 2^k for k in {-8,-3,-1,1,3,10,20}, translation by representable offsets (no pruning)', '')],
 }
 
 
